@@ -992,9 +992,13 @@ func (x *Exec) execFor(s *ast.ForStmt, lab *ast.LabeledStmt, st *State, env *Env
 	}
 	// 5. body; the invariant is re-checked on every path that reaches the loop end
 	// (a clause whose term is unchanged on a path is preserved syntactically)
+	bodyStart, retsBefore := len(x.fc.facts), len(x.retStates)
 	bo := x.execBlock(s.Body.List, bodySt, env)
 	paths := append(append([]*State{}, bo.cont[s]...), bo.normal)
 	delete(bo.cont, s)
+	if !x.bodyEscapes(retsBefore, bo) {
+		defer x.scopeLoopBody(bodyStart)
+	}
 	var ends []*State
 	for _, ps := range paths {
 		if dead(ps) {
@@ -1142,9 +1146,13 @@ func (x *Exec) execRange(s *ast.RangeStmt, lab *ast.LabeledStmt, st *State, env 
 		ev := x.loadElem(bodySt, &rv, idx, "", sl.Elem())
 		x.store(bodySt, valLV, ev, s.Pos())
 	}
+	bodyStart, retsBefore := len(x.fc.facts), len(x.retStates)
 	bo := x.execBlock(s.Body.List, bodySt, env)
 	paths := append(append([]*State{}, bo.cont[s]...), bo.normal)
 	delete(bo.cont, s)
+	if !x.bodyEscapes(retsBefore, bo) {
+		defer x.scopeLoopBody(bodyStart)
+	}
 	var ends []*State
 	for _, ps := range paths {
 		if !dead(ps) {
@@ -1231,5 +1239,42 @@ func (x *Exec) checkLoopEnd(ends []*State, spec *LoopSpec, headTerms []string, s
 			}
 			x.fc.oblige("dec.step", lbl, mergeProps(x.props, spec.Dec.Props), x.pos(p), ps.pc, app("<", x.toInt(v), dec0), "variant decreases: "+spec.Dec.Text)
 		}
+	}
+}
+
+// bodyEscapes reports whether some path leaves the loop body other than through its end
+// (break, goto, labelled continue, return).
+func (x *Exec) bodyEscapes(retsBefore int, bo *outs) bool {
+	if len(x.retStates) != retsBefore || len(bo.gotos) > 0 {
+		return true
+	}
+	for _, v := range bo.brk {
+		if len(v) > 0 {
+			return true
+		}
+	}
+	for _, v := range bo.cont {
+		if len(v) > 0 {
+			return true
+		}
+	}
+	return false
+}
+
+// scopeLoopBody marks the facts generated while executing a loop body as
+// irrelevant for everything after the loop (no path escapes from the body).
+// Dropping hypotheses is sound.
+func (x *Exec) scopeLoopBody(bodyStart int) {
+	end := len(x.fc.facts)
+	if end > bodyStart {
+		// drop ranges nested in the new one (inner loops); ranges stay sorted and disjoint
+		var keep [][2]int
+		for _, r := range x.fc.dead {
+			if r[0] >= bodyStart && r[1] <= end {
+				continue
+			}
+			keep = append(keep, r)
+		}
+		x.fc.dead = append(keep, [2]int{bodyStart, end})
 	}
 }
